@@ -54,6 +54,10 @@ func (o *objectIncludeStrategy) evaluate(m *MethodEvaluator) error {
 		return nil
 	}
 
+	if base.IsInheritanceCycle(classNode, parentNode) {
+		return fmt.Errorf("cyclic %s: %s", m.method, nextT.ToString())
+	}
+
 	base.ClassInheritanceMap[classNode] =
 		append(base.ClassInheritanceMap[classNode], parentNode)
 
